@@ -9,7 +9,7 @@
      class with a CatchAll field (`sentinel_freeb`);
    * F19 (v1): two fields sharing a top-level key (AliasPath 'a.b' / 'a.c'), which makes
      the counter `i` over-count (`v1_disjointb`). *)
-From DW Require Import PyStr StrConv FieldsMissing FieldsMissingProofs FieldsUnknown FieldsUnknownProofs.
+From DW Require Import PyStr StrConv FieldsMissing FieldsMissingProofs FieldsUnknown FieldsUnknownProofs FieldsUnknownCfgProofs.
 
 Definition sentinel_freeb {raw} (c : v0cls) (d : doc raw) : bool :=
   forallb (fun k => negb (skip_key c k)) (keys d).
@@ -269,3 +269,333 @@ Theorem C10_refuted_alone_first :
     snd (v0_load yconv strict st [(S "a", S "2"); (S "bogus", S "3")]) = EUnknown (S "AInner") [S "bogus"].
 Proof. exists (AI false), (AI true), AI_alone. repeat split; vm_compute; reflexivity. Qed.
 Print Assumptions C10_refuted_alone_first.
+
+
+(* =============================================================================================
+   Round 3.  A: how the policy reaches the generator.  B: generations.  C: dump composition.
+   ============================================================================================= *)
+
+(* ---- A. configuration -------------------------------------------------------------------- *)
+
+(* For EVERY sequence of Meta binds on a class (inner Meta, LoadMeta, DumpMeta, in any order and
+   number; each Meta writing or not writing v1_on_unknown_key / raise_on_unknown_json_key, in any
+   spelling) that succeeds: what the generator reads is the LAST explicitly written value —
+   for the v1 policy normalised to None or a KeyAction member, never a raw string. *)
+Theorem C10_cfg_last_wins :
+  forall (bs : list metadict) st, bind_all None bs = BOk st ->
+  stored_action st = match last_explicit md_action bs None with Some v => norm_action v | None => PvNone end /\
+  stored_raise st = match last_explicit md_raise bs None with Some v => v | None => PvBool false end /\
+  is_normal_action (stored_action st) = true /\
+  v1_policy_of (stored_action st) = spec_policy bs /\
+  py_truthy (stored_raise st) = spec_raise_flag bs.
+Proof.
+  intros bs st H. destruct (cfg_last_wins bs st H) as [A B]. destruct (cfg_policy bs st H) as (C & D & E).
+  repeat split; assumption.
+Qed.
+
+(* the binds succeed whenever every written policy is a KeyAction name in some spelling *)
+Theorem C10_cfg_valid :
+  forall bs, forallb valid_bind bs = true -> exists st, bind_all None bs = BOk st.
+Proof. intros bs H. now apply cfg_valid_binds_ok. Qed.
+
+(* string and enum spellings are indistinguishable downstream *)
+Theorem C10_cfg_spelling :
+  forall bs bs', Forall2 md_equiv bs bs' ->
+  spec_policy bs = spec_policy bs' /\ spec_raise_flag bs = spec_raise_flag bs'.
+Proof. exact cfg_spelling. Qed.
+
+Example C10_example_spellings :
+  Forall2 md_equiv
+    [ {| md_action := None; md_raise := Some (PvInt 1) |}; {| md_action := Some (PvStr (S "raise")); md_raise := None |};
+      {| md_action := Some (PvStr (S "")); md_raise := Some (PvStr (S "")) |} ]
+    [ {| md_action := None; md_raise := Some (PvBool true) |}; {| md_action := Some (PvAction PRaise); md_raise := None |};
+      {| md_action := Some PvNone; md_raise := Some (PvBool false) |} ] /\
+  bind_all None [ {| md_action := Some (PvStr (S "IGNORE")); md_raise := None |};
+                  {| md_action := None; md_raise := Some (PvBool true) |};
+                  {| md_action := Some (PvStr (S "Raise")); md_raise := None |} ]
+  = BOk (Some {| md_action := Some (PvAction PRaise); md_raise := Some (PvBool true) |}) /\
+  bind_all None [ {| md_action := Some (PvStr (S "strict")); md_raise := None |} ] = BParseError.
+Proof. split; [repeat constructor|split; vm_compute; reflexivity]. Qed.
+
+Section C10cfg.
+Variables raw V : Type.
+Variable conv : pstr -> raw -> cres V.
+
+(* composition with the loaders: whatever the entry points, their order and the spellings,
+   the v1 loader generated after the binds is the specification under the last written policy *)
+Theorem C10_cfg_v1_partial :
+  forall (c c' : v1cls) (bs : list metadict) (o : doc raw),
+  v1_configured c bs = Some c' -> v1_disjointb c = true -> NoDup (keys o) ->
+  v1_load conv c' o = v1_spec conv (v1_with_policy c (spec_policy bs)) o.
+Proof.
+  intros c c' bs o H Hd Hn. unfold v1_configured in H. destruct (bind_all None bs) as [st|] eqn:E; [|discriminate].
+  injection H as <-. destruct (cfg_policy bs st E) as (-> & _ & _).
+  apply v1_load_spec; [|exact Hn]. unfold v1_disjoint. apply nodup_str_NoDup. exact Hd.
+Qed.
+
+(* default engine: every history of loads after the binds, under the last written flag *)
+Theorem C10_cfg_v0_partial :
+  forall (c c' : v0cls) (bs : list metadict) (docs : list (doc raw)),
+  v0_configured c bs = Some c' -> forallb (sentinel_freeb c) docs = true ->
+  v0_run conv c' (init_cache c') docs = map (v0_spec conv (v0_with_raise c (spec_raise_flag bs))) docs.
+Proof.
+  intros c c' bs docs H Hs. unfold v0_configured in H. destruct (bind_all None bs) as [st|] eqn:E; [|discriminate].
+  injection H as <-. destruct (cfg_policy bs st E) as (_ & -> & _).
+  apply C10_spec_partial. exact Hs.
+Qed.
+
+(* ---- B. generations ------------------------------------------------------------------------ *)
+
+(* For ALL histories of generations and loads across roots (a class is generated once per root
+   that nests it and once alone): every load is served as by a loader generated from the
+   PRISTINE class — no generation consumes what the next one reads. *)
+Theorem C10_gen_history :
+  forall (src : v1src) (pol : nat -> v1policy) (ops : list (gop raw)),
+  g_run conv src pol (g_init src) ops = g_ref conv src pol ops.
+Proof. intros. apply g_run_ref. apply gen_inv_init. Qed.
+
+(* ... so the outcomes of the loads do not depend on how many generations are interleaved *)
+Theorem C10_gen_count_independent :
+  forall (src : v1src) (pol : nat -> v1policy) (ops ops' : list (gop raw)),
+  @loads_of raw ops = @loads_of raw ops' ->
+  g_run conv src pol (g_init src) ops = g_run conv src pol (g_init src) ops'.
+Proof. intros. now apply g_run_generation_independent. Qed.
+
+(* and for a regular class (dataclass order; the CatchAll field required or with a plain
+   default — not a default_factory, F91) every load of every history is the counter-free,
+   position-free specification; the generation never fails *)
+Theorem C10_gen_history_spec_partial :
+  forall (src : v1src) (pol : nat -> v1policy) (ops : list (gop raw)),
+  src_regular src = true ->
+  (forall p g, v1_generate src (s_init src) p = GenOk g -> v1_disjointb (g_cls g) = true) ->
+  (forall r o, In (r, o) (@loads_of raw ops) -> NoDup (keys o)) ->
+  g_run conv src pol (g_init src) ops =
+  map (fun ro => match v1_generate src (s_init src) (pol (fst ro)) with
+                 | GenOk g => GOut (v1_spec conv (g_cls g) (snd ro))
+                 | GenValueError => GValueError
+                 end) (@loads_of raw ops).
+Proof.
+  intros src pol ops Hr Hd Hn. apply g_run_spec; [exact Hr| |exact Hn].
+  intros p g E. unfold v1_disjoint. apply nodup_str_NoDup. eapply Hd; eauto.
+Qed.
+
+Theorem C10_gen_never_fails :
+  forall (src : v1src) (p : v1policy),
+  (forall cf q, s_catch src = Some (cf, q) -> In cf (map if_name (s_init src))) ->
+  exists g, v1_generate src (s_init src) p = GenOk g.
+Proof. exact gen_pristine_ok. Qed.
+
+(* default engine: the loaders generated for one class under several roots share its cache and
+   differ in the raise flag.  For ALL histories of loads across roots in which no load under an
+   ignore-policy generation precedes a load under a raise-policy generation, every outcome is the
+   cache-free specification under ITS root's policy.  (The excluded histories are the open
+   finding F10-C10-alone-first: C10_refuted_alone_first.) *)
+Theorem C10_multi_root_partial :
+  forall (c : v0cls) (rz : nat -> bool) (ops : list (nat * doc raw)),
+  strict_then_lax rz ops = true ->
+  forallb (fun ro => sentinel_freeb c (snd ro)) ops = true ->
+  v0_multi_run conv c rz (init_cache c) ops =
+  map (fun ro => v0_spec conv (v0_with_raise c (rz (fst ro))) (snd ro)) ops.
+Proof.
+  intros c rz ops Hl Hs. apply multi_root_spec; [exact (init_cache_inv (v0_with_raise c true))|exact Hl|].
+  rewrite forallb_forall in Hs. apply Forall_forall. intros ro Hin. apply sentinel_freeb_ok. now apply Hs.
+Qed.
+
+(* ---- C. dump ------------------------------------------------------------------------------- *)
+
+(* For ALL dump-side settings (exclude set, skip_defaults, Meta.skip_if, Meta.skip_defaults_if, a
+   SkipIf on any field including the CatchAll field, key transform, tag), all truth tables of
+   the conditions (every operator, every value, TypeErrors included), all instances: when
+   cls_asdict returns, the pairs written by the CatchAll branch are EXACTLY the captured items,
+   in order — or none when the CatchAll FIELD is selected by exclude / the skip-defaults rule
+   (`catch_field_skipped`, which mentions neither Meta.skip_if nor any per-field SkipIf). *)
+Theorem C10_dump_catch_exact :
+  forall (cond : Type) (ctest : cond -> pstr -> option bool) (is_dflt : pstr -> bool)
+         (cfg : dumpcfg cond) (args : dumpargs) (inst : list (pstr * kwval raw V)) cf items pairs,
+  dc_catch cfg = Some cf -> NoDup (dc_fields cfg) -> In cf (dc_fields cfg) ->
+  assoc cf inst = Some (KCatch items) ->
+  dump_cfg ctest is_dflt cfg args inst = Some pairs ->
+  filter (@is_xraw raw V) pairs =
+    if catch_field_skipped ctest is_dflt cfg args cf then [] else raw_items raw V items.
+Proof. intros. eapply dump_cfg_catch_exact; eauto. Qed.
+
+(* two configurations that differ only in Meta.skip_if and the per-field SkipIf conditions
+   write the same captured pairs *)
+Theorem C10_dump_skip_if_irrelevant :
+  forall (cond : Type) (ctest : cond -> pstr -> option bool) (is_dflt : pstr -> bool)
+         (cfg cfg' : dumpcfg cond) (args : dumpargs) (inst : list (pstr * kwval raw V)) cf items pairs pairs',
+  dc_catch cfg = Some cf -> dc_catch cfg' = Some cf ->
+  dc_fields cfg' = dc_fields cfg -> dc_has_default cfg' cf = dc_has_default cfg cf ->
+  dc_skip_defaults_if cfg' = dc_skip_defaults_if cfg ->
+  NoDup (dc_fields cfg) -> In cf (dc_fields cfg) -> assoc cf inst = Some (KCatch items) ->
+  dump_cfg ctest is_dflt cfg args inst = Some pairs ->
+  dump_cfg ctest is_dflt cfg' args inst = Some pairs' ->
+  filter (@is_xraw raw V) pairs = filter (@is_xraw raw V) pairs'.
+Proof.
+  intros cond ctest is_dflt cfg cfg' args inst cf items pairs pairs' Hc Hc' Hf Hd Hs Hn Hin Hi H H'.
+  rewrite (dump_cfg_catch_exact raw V cond ctest is_dflt cfg args inst cf items pairs Hc Hn Hin Hi H).
+  assert (Hn' : NoDup (dc_fields cfg')) by now rewrite Hf.
+  assert (Hin' : In cf (dc_fields cfg')) by now rewrite Hf.
+  rewrite (dump_cfg_catch_exact raw V cond ctest is_dflt cfg' args inst cf items pairs' Hc' Hn' Hin' Hi H').
+  unfold catch_field_skipped. now rewrite Hd, Hs.
+Qed.
+
+(* load then dump under any dump configuration, v1: the instance holds what the loader passed
+   for the CatchAll field; unless that FIELD is skipped, to_dict(from_dict(d))[k] = v for every
+   unknown pair (the other fields' dump keys being keys of the class, as in C10_v1_catchall_rt) *)
+Theorem C10_dump_catch_rt_v1 :
+  forall (cond : Type) (ctest : cond -> pstr -> option bool) (is_dflt : pstr -> bool)
+         (c : v1cls) (cfg : dumpcfg cond) (args : dumpargs) cf dflt (o : doc raw) kw
+         (inst : list (pstr * kwval raw V)) pairs,
+  d_catch c = Some (cf, dflt) -> dc_catch cfg = Some cf -> NoDup (dc_fields cfg) -> In cf (dc_fields cfg) ->
+  NoDup (keys o) -> v1_spec conv c o = OKCall kw -> v1_extras c o <> [] ->
+  assoc cf inst = assoc cf kw ->
+  dump_cfg ctest is_dflt cfg args inst = Some pairs ->
+  catch_field_skipped ctest is_dflt cfg args cf = false ->
+  (forall f, In f (dc_fields cfg) -> is_catch cfg f = false -> In (dc_key cfg f) (v1_aliases c)) ->
+  (forall tk t, dc_tag cfg = Some (tk, t) -> In tk (v1_aliases c)) ->
+  forall k v, In (k, v) (v1_extras c o) -> assoc k (to_dict pairs) = Some (XRaw v).
+Proof.
+  intros cond ctest is_dflt c cfg args cf dflt o kw inst pairs Hc Hdc Hn Hin Hno Hs Hne Hi Hd Hsk Hkey Htag k v Hkv.
+  rewrite (v1_spec_catch_kw raw V conv c cf dflt o kw Hc Hs Hne) in Hi.
+  assert (Uk : ~ In k (v1_aliases c)).
+  { unfold v1_extras in Hkv. apply filter_In in Hkv as [_ H]. cbn [fst] in H.
+    apply negb_true_iff in H. now apply mem_false in H. }
+  eapply dump_cfg_contains; eauto.
+  - unfold v1_extras. now apply keys_filter_nodup.
+  - intros f Hf Hcf E. apply Uk. rewrite <- E. now apply Hkey.
+  - intros tk t Ht E. apply Uk. rewrite <- E. eapply Htag; eauto.
+Qed.
+
+(* the same for the default engine *)
+Theorem C10_dump_catch_rt_v0 :
+  forall (cond : Type) (ctest : cond -> pstr -> option bool) (is_dflt : pstr -> bool)
+         (c : v0cls) (cfg : dumpcfg cond) (args : dumpargs) cf dflt (d : doc raw) kw
+         (inst : list (pstr * kwval raw V)) pairs,
+  c_raise c = false -> c_catch c = Some (cf, dflt) -> dc_catch cfg = Some cf ->
+  NoDup (dc_fields cfg) -> In cf (dc_fields cfg) -> NoDup (keys d) ->
+  v0_spec conv c d = OKCall kw -> unknown_pairs c d <> [] ->
+  assoc cf inst = assoc cf kw ->
+  dump_cfg ctest is_dflt cfg args inst = Some pairs ->
+  catch_field_skipped ctest is_dflt cfg args cf = false ->
+  (forall f, In f (dc_fields cfg) -> is_catch cfg f = false -> classify c (dc_key cfg f) <> KUnknown) ->
+  (forall tk t, dc_tag cfg = Some (tk, t) -> c_tag c = Some tk) ->
+  forall k v, In (k, v) (unknown_pairs c d) -> assoc k (to_dict pairs) = Some (XRaw v).
+Proof.
+  intros cond ctest is_dflt c cfg args cf dflt d kw inst pairs Hr Hc Hdc Hn Hin Hno Hs Hne Hi Hd Hsk Hkey Htag k v Hkv.
+  rewrite (v0_spec_catch_kw raw V conv c cf dflt d kw Hr Hc Hno Hs Hne) in Hi.
+  assert (Uk : classify c k = KUnknown).
+  { unfold unknown_pairs in Hkv. apply filter_In in Hkv as [_ H]. cbn [fst] in H.
+    destruct (classify c k); try discriminate. reflexivity. }
+  eapply dump_cfg_contains; eauto.
+  - unfold unknown_pairs. now apply keys_filter_nodup.
+  - intros f Hf Hcf E. apply (Hkey f Hf Hcf). now rewrite E.
+  - intros tk t Ht E. apply (tag_not_unknown c tk (Htag tk t Ht)). now rewrite E.
+Qed.
+
+End C10cfg.
+
+Print Assumptions C10_cfg_last_wins.
+Print Assumptions C10_cfg_valid.
+Print Assumptions C10_cfg_spelling.
+Print Assumptions C10_cfg_v1_partial.
+Print Assumptions C10_cfg_v0_partial.
+Print Assumptions C10_gen_history.
+Print Assumptions C10_gen_count_independent.
+Print Assumptions C10_gen_history_spec_partial.
+Print Assumptions C10_gen_never_fails.
+Print Assumptions C10_multi_root_partial.
+Print Assumptions C10_dump_catch_exact.
+Print Assumptions C10_dump_skip_if_irrelevant.
+Print Assumptions C10_dump_catch_rt_v1.
+Print Assumptions C10_dump_catch_rt_v0.
+
+(* ---- B: non-vacuity, and the open finding F91 ------------------------------------------------- *)
+Definition fld (n : pstr) (d : bool) : ifield := {| if_name := n; if_keys := [n]; if_default := d |}.
+
+(* Item(name, extra: CatchAll = None, qty = 1): regular; nested under two roots and used alone,
+   generated five times in all: every load captures exactly its unknown keys *)
+Definition XItem : v1src :=
+  {| s_name := S "Item"; s_init := [fld (S "name") false; fld (S "extra") true; fld (S "qty") true];
+     s_catch := Some (S "extra", true); s_tag := None |}.
+Definition xitem_doc : doc pstr := [(S "name", S "pen"); (S "qty", S "2"); (S "colour", S "blue")].
+
+Example C10_example_generations :
+  src_regular XItem = true /\
+  g_run yconv XItem (fun _ => PIgnore) (g_init XItem)
+    [OpLoad 0 xitem_doc; OpGen 1; OpGen 2; OpLoad 1 xitem_doc; OpGen 0; OpLoad 2 [(S "name", S "ink")]; OpLoad 0 xitem_doc]
+  = [GOut (OKCall [(S "name", KV (S "pen")); (S "qty", KV (S "2")); (S "extra", KCatch [(S "colour", S "blue")])]);
+     GOut (OKCall [(S "name", KV (S "pen")); (S "qty", KV (S "2")); (S "extra", KCatch [(S "colour", S "blue")])]);
+     GOut (OKCall [(S "name", KV (S "ink"))]);
+     GOut (OKCall [(S "name", KV (S "pen")); (S "qty", KV (S "2")); (S "extra", KCatch [(S "colour", S "blue")])])].
+Proof. split; vm_compute; reflexivity. Qed.
+
+(* why the table must not be consumed: a generator that hands its shortened list back as the
+   table makes the SECOND generation fail (`tuple.index(x): x not in tuple`) *)
+Example C10_example_consumed_table :
+  let tbl1 := remove_nth 1 (s_init XItem) in
+  (exists g, v1_generate XItem (s_init XItem) PIgnore = GenOk g) /\
+  v1_generate XItem tbl1 PIgnore = GenValueError.
+Proof. split; [eexists|]; vm_compute; reflexivity. Qed.
+
+(* F91 (open): a CatchAll field with a default_factory has no '?' in the marker, so its variable
+   is passed POSITIONALLY at `catch_all_idx`, but the positional list holds only the required
+   fields: with a defaulted field declared before it, the captured dict lands in THAT field —
+   an unknown key changes the value of a mapped field — and a document that gives the field
+   fails with a bare TypeError even without unknown keys. *)
+Definition F91_src : v1src :=
+  {| s_name := S "A"; s_init := [fld (S "a") false; fld (S "b") true; fld (S "rest") true];
+     s_catch := Some (S "rest", false); s_tag := None |}.
+
+Theorem C10_gen_refuted_default_factory :
+  exists (src : v1src) (g : v1gen),
+    src_regular src = false /\ v1_generate src (s_init src) PIgnore = GenOk g /\
+    v1_disjointb (g_cls g) = true /\ pos_ok src g = false /\
+    v1_spec yconv (g_cls g) [(S "a", S "1"); (S "zz", S "5")]
+      = OKCall [(S "a", KV (S "1")); (S "rest", KCatch [(S "zz", S "5")])] /\
+    v1g_load yconv src g [(S "a", S "1"); (S "zz", S "5")]
+      = GOut (OKCall [(S "a", KV (S "1")); (S "b", KCatch [(S "zz", S "5")])]) /\
+    v1g_load yconv src g [(S "a", S "1"); (S "b", S "2")] = GTypeError (S "b").
+Proof.
+  exists F91_src. eexists. split; [vm_compute; reflexivity|]. split; [vm_compute; reflexivity|].
+  repeat split; vm_compute; reflexivity.
+Qed.
+Print Assumptions C10_gen_refuted_default_factory.
+
+(* a default_factory CatchAll field is harmless when no defaulted field precedes it *)
+Example C10_example_factory_first :
+  let src := {| s_name := S "B"; s_init := [fld (S "a") false; fld (S "rest") true; fld (S "b") true];
+                s_catch := Some (S "rest", false); s_tag := None |} in
+  src_regular src = false /\
+  match v1_generate src (s_init src) PIgnore with GenOk g => pos_ok src g | GenValueError => false end = true.
+Proof. split; vm_compute; reflexivity. Qed.
+
+(* two roots, the strict one used first: the second load (lax root) drops 'seen', the third
+   (strict root again) still rejects a NEW key... and would accept 'seen' (F10-C10-alone-first) *)
+Example C10_example_multi_root :
+  strict_then_lax (fun r => Nat.eqb r 1) [(1, AI_alone); (0, AI_alone)] = true /\
+  v0_multi_run yconv (AI false) (fun r => Nat.eqb r 1) (init_cache (AI false)) [(1, AI_alone); (0, AI_alone)]
+  = [EUnknown (S "AInner") [S "seen"]; OKCall [(S "a", KV (S "7"))]].
+Proof. split; vm_compute; reflexivity. Qed.
+
+(* ---- C: non-vacuity ---------------------------------------------------------------------------- *)
+(* class (my_val, other = .., extras: CatchAll = None), Meta.skip_if = IS_TRUTHY(),
+   Meta.skip_defaults_if = IS(None), a SkipIf(IS_TRUTHY()) on the CatchAll field itself,
+   exclude = ['other']: the truthy my_val is skipped, `other` is excluded, the captured pairs stay *)
+Definition xcfg (sdi : option nat) : dumpcfg nat :=
+  {| dc_fields := [S "my_val"; S "other"; S "extras"]; dc_key := xdump_key; dc_catch := Some (S "extras");
+     dc_has_default := fun f => negb (pstr_eqb f (S "my_val")); dc_skip_if := Some 0; dc_skip_defaults_if := sdi;
+     dc_field_skip := fun f => if pstr_eqb f (S "extras") then Some 0 else None; dc_tag := Some (S "__tag__", S "A") |}.
+Definition xtest (c : nat) (f : pstr) : option bool :=      (* 0 = IS_TRUTHY(), 1 = IS(None): on this instance *)
+  match c with 0 => Some true | _ => Some false end.
+Definition xinst : list (pstr * kwval pstr pstr) :=
+  [(S "my_val", KV (S "1")); (S "other", KV (S "2")); (S "extras", KCatch [(S "zzz", S "3"); (S "my_vall", S "4")])].
+
+Example C10_example_dump_cfg :
+  dump_cfg xtest (fun _ => false) (xcfg (Some 1)) {| da_exclude := Some [S "other"]; da_skip_defaults := true |} xinst
+    = Some [(S "zzz", XRaw (S "3")); (S "my_vall", XRaw (S "4")); (S "__tag__", XTag (S "A"))] /\
+  (* Meta.skip_defaults_if = IS_TRUTHY(): the CatchAll field is a defaulted field whose value satisfies it *)
+  dump_cfg xtest (fun _ => false) (xcfg (Some 0)) {| da_exclude := None; da_skip_defaults := true |} xinst
+    = Some [(S "__tag__", XTag (S "A"))] /\
+  catch_field_skipped xtest (fun _ => false) (xcfg (Some 0)) {| da_exclude := None; da_skip_defaults := true |} (S "extras") = true.
+Proof. repeat split; vm_compute; reflexivity. Qed.
